@@ -50,6 +50,8 @@ type c17Case struct {
 	Plat  string    `json:"plat"`
 	Max   int       `json:"max"`
 	Strip bool      `json:"strip"`
+	Pad   int       `json:"pad"` // REST part only: old review comments of somebody else that precede all others
+	Padf  int       `json:"padf"` // REST part only: other changed files listed before the rule files
 	Seeds []c17Seed `json:"seeds"`
 	Runs  []c17Run  `json:"runs"`
 }
@@ -461,7 +463,7 @@ func c17RunCase(id int, cs c17Case, emit func(any)) error {
 		}
 		seeds = append(seeds, seedRec{in.comment(c), at})
 	}
-	emit(map[string]any{"ev": "Case", "id": id, "plat": cs.Plat, "max": cs.Max, "strip": cs.Strip, "store": seeds})
+	emit(map[string]any{"ev": "Case", "id": id, "plat": cs.Plat, "max": cs.Max, "strip": cs.Strip, "pad": 0, "padf": 0, "store": seeds})
 	for rn, run := range cs.Runs {
 		on := map[string]bool{}
 		for _, p := range run.Reports {
